@@ -647,6 +647,30 @@ func FaultEvents(w *world.World, ctrl string, name string, kinds []world.FaultKi
 	return evs
 }
 
+// ConflictEvents: for the pass of controller ctrl on name and each request k of it that writes an
+// existing object, an event in which another actor's write to that object (resourceVersion bump,
+// nothing the model can see changes) lands just before request k is sent - the write conflicts if
+// it carries a resourceVersion. Budget "conflict".
+func ConflictEvents(w *world.World, ctrl string, name string) []world.Event {
+	if w.Budget["conflict"] <= 0 {
+		return nil
+	}
+	probe := w.Clone()
+	reqs := probe.Reconcile(ctrl, NN(name), nil).Reqs
+	var evs []world.Event
+	for i, r := range reqs {
+		if !r.IsWrite() || r.Pre == nil {
+			continue
+		}
+		i, k := i, r.Key
+		evs = append(evs, world.Event{Name: fmt.Sprintf("conflict:%s:%s@%d:%s", strings.ToLower(ctrl), name, i, k.Kind+"/"+k.Name), Apply: func(w *world.World) *world.Pass {
+			w.Budget["conflict"]--
+			return w.Reconcile(ctrl, NN(name), &world.Plan{InterfereAt: i, Interfere: func(w *world.World) { w.S.Touch(k) }})
+		}})
+	}
+	return evs
+}
+
 // TemplateOf extracts the ObjectSetTemplateSpec part (phases, probes, successDelay) of a stored
 // ObjectSet or of an ObjectDeployment's template as canonical text.
 func TemplateOf(c map[string]any) string {
